@@ -73,11 +73,12 @@ def run(ctx) -> Result:
     res.rule = ("random client programs biased to removing calls (unschedule / remove_handler_for_watch / unschedule_all / stop, "
                 "from API threads and re-entrantly from callbacks) x random schedules; distinct = (program, set of removing calls "
                 "that returned while an event of the affected watch was still queued); non-trivial = that set is non-empty")
-    op.campaign(ctx, res, "C05", programs(ctx, 300 if not ctx.thorough else 1200), judge, n_random=3)
-    # the same oracle with a scheduling point before every source line of the observer's own methods: a removal that is
-    # not serialised with the dispatcher's check-then-call pair shows only there
+    # the oracle with a scheduling point before every source line of the observer's own methods: a removal that is not
+    # serialised with the dispatcher's check-then-call pair shows only there (runs first: no lock-step, so a broken
+    # correspondence cannot cut it short)
     op.campaign(ctx, res, "C05", [dict(p, line_yield=True) for p in programs(ctx, 60 if not ctx.thorough else 400)], judge,
                 n_random=2, do_lockstep=False, tag="line")
+    op.campaign(ctx, res, "C05", programs(ctx, 300 if not ctx.thorough else 1200), judge, n_random=3)
     if ctx.thorough:
         op.campaign(ctx, res, "C05", programs(ctx, 25, small=True), judge, explore_runs=400, tag="x")
         res.notes.append("thorough: 25 small programs explored exhaustively under <=2 pre-emptions (capped at 400 schedules each)")
